@@ -21,7 +21,7 @@ INVARIANTS = ("ActivesAreOutline", "Alternate", "Bracket", "AuxOwnership", "EndC
 PROFILES = {
     "C02": (("periods", "bids", "clocks", "inputs"), {"framers": 3}, "several framers with zero / multiple / non-multiple periods and period-changing bids"),
     "C03": (("bids", "forest", "aux", "condaux", "clocks", "inputs", "raises"), {}, "stop/abort bids, keyboard interrupts at every tick boundary, actions raising at random points"),
-    "C04": (("bids", "periods", "clocks", "inputs", "guards"), {"framers": 3}, "bids of every kind between active and inactive framers in all declaration orders"),
+    "C04": (("bids", "periods", "clocks", "inputs", "guards", "slaves"), {"framers": 2}, "bids of every kind between active and inactive framers in all declaration orders; slave framers driven by fiats, failing starts"),
     "C05": (("forest", "condaux", "clocks", "inputs", "bids"), {}, "frame forests with primary-under overrides, transitions, conditional auxiliaries, stop/abort"),
     "C06": (("forest", "aux", "condaux", "clocks", "inputs", "bids", "done"), {}, "recorders in every context of every frame; transitions to self/ancestor/descendant/other subtree"),
     "C07": (gen.ALL, {}, "every modelled verb"),
